@@ -31,7 +31,7 @@ ASSUMPTIONS = ["at most one configured instance matches any generated entry (as 
 FLOORS = {"quick": {"messages": 20000, "subscribe_entries": 40000, "acks_expected": 25000, "positive_acks": 8000, "negative_acks": 10000,
                     "nack_no_running_instance": 3000, "nack_listener_rejected": 1500, "stopsubscribe_known_silent": 2000,
                     "multicast_messages_silent": 2000, "duplicate_entry_messages": 1000, "bursts_in_one_iteration": 2000, "wildcard_instance_matches": 1000,
-                    "mesh_scenarios": 100, "mesh_subscribes_judged": 1500, "mesh_positive_acks_expected": 1000}}
+                    "mesh_scenarios": 100, "mesh_subscribes_judged": 900, "mesh_positive_acks_expected": 600}}
 # system-level shards: the mesh workload of pv/mesh.py under this property's boundary monitors (reports of other monitors are dropped)
 MESH = {"want": ("ack",), "claim": ("mesh:subscribe-acknowledgement-differs",),
         "quick": (2, 60), "thorough": (16, 1500)}
